@@ -86,7 +86,10 @@ def make_instance(n, cfg, matrix=None, layout="C"):
     else:
         from vlib.workloads.arrays import relayout
         m = relayout(np.array(matrix, int), layout)
-    inst = Instance(f"v{n}r{rounds}", m, [f"t{i}" for i in range(n)],
+    iname = f"v{n}r{rounds}"
+    if matrix is not None and _ALIAS[0] % 5 == 3:
+        iname = f"circ{n}"       # the name of a shipped instance
+    inst = Instance(iname, m, [f"t{i}" for i in range(n)],
                     rounds, hmin, hmax, amin, amax, smin, smax)
     if matrix is not None:
         # every other instance is built again from an array that already has
@@ -94,8 +97,20 @@ def make_instance(n, cfg, matrix=None, layout="C"):
         # that buffer ("the matrix will be copied")
         _ALIAS[0] += 1
         if _ALIAS[0] % 2 == 0:
-            buf = np.array(matrix, dtype=inst.dtype)
-            inst = Instance(f"v{n}r{rounds}", buf,
+            # in the storage type itself, or in the narrowest signed /
+            # unsigned type that holds the distances
+            mx = max(max(r) for r in matrix)
+            kind = (_ALIAS[0] // 2) % 3
+            if kind == 0:
+                bdt = inst.dtype
+            elif kind == 1:
+                bdt = next(t for t in (np.int8, np.int16, np.int32, np.int64)
+                           if mx <= np.iinfo(t).max)
+            else:
+                bdt = next(t for t in (np.uint8, np.uint16, np.uint32,
+                                       np.uint64) if mx <= np.iinfo(t).max)
+            buf = np.array(matrix, dtype=bdt)
+            inst = Instance(iname, buf,
                             [f"t{i}" for i in range(n)], rounds, hmin, hmax,
                             amin, amax, smin, smax)
             buf[:, :] = buf.T.copy() * 3 + 1
